@@ -314,4 +314,44 @@ def run(ctx: core.Ctx) -> int:
             ctx.error(f"anchor missing: {_mod}.{_cls}.{_fn}")
         else:
             _tmp.trust_sig(ctx, _rel, f"{_cls}.{_fn}", _f)
+    # ---- the named-array constructors are on the generator's path (sensor noise -> Covariance.from_dict -> the emitted covariance(i, i) constants) and
+    # behind every Python layout: their slot order must be the arglist's, not a set's (shared with C13)
+    from . import c13 as _c13
+    for _rid, _t in (("NV-NAMES", "named arrays accept the str() names of their arglist, in its order"), ("NV-STORE", "the value given for a name is stored at its index"),
+                     ("NV-DEFAULT", "zeros / unit variance defaults"), ("NV-GUARD", "unknown names refused"), ("NV-DATA", "_data stored as is"),
+                     ("NV-SHAPE", "shape from the arglist")):
+        ctx.rule(_rid, _t)
+    _cm = ctx.parse("py/formak/common.py")
+    _c13.check_named(ctx, _cm, "named_covariance", "cov")
+    _c13.check_named(ctx, _cm, "named_vector", "vec")
+    # ---- DET-W: the constructed generator under different hash orders.  The witness model's symbols hash in a fixed order that is not their name
+    # order (fv.witness.WSym); re-salting the hash changes the iteration order of every set / dict of symbols the generator is handed.  The text
+    # derived for the translation unit must not change -- whatever helper or container the generator routes its symbols through.
+    from .. import witness as _w
+    ctx.rule("DET-W", "the code derived from the constructed generator is the same under every hash order of the model's symbols")
+    wit = _w.Witness(ctx)
+    ndet = 0
+    for v in (_w.Valuation(True, True), _w.Valuation(True, True, ekf=False)):
+        texts, orders = [], []
+        try:
+            for salt in (b"", b"a", b"bb", b"ccc", b"dddd"):
+                _w.WSym.salt = salt
+                orders.append(tuple(str(x) for x in _w.WModel(v).state) + tuple(str(x) for x in _w.WModel(v).calibration) + tuple(str(x) for x in _w.WModel(v).control))
+                texts.append(wit.tu(v))
+        finally:
+            _w.WSym.salt = b""
+        if len(set(orders)) < 2:
+            ctx.error(f"DET-W: the salts did not change the iteration order of the witness model's symbol sets ({v.tag})")
+            continue
+        ndet += 1
+        same = len(set(texts)) == 1
+        diff_line = ""
+        if not same:
+            a_, b_ = texts[0].splitlines(), next(t for t in texts if t != texts[0]).splitlines()
+            k_ = next((i for i, (x, y) in enumerate(zip(a_, b_)) if x != y), min(len(a_), len(b_)))
+            diff_line = f"first difference: `{(a_[k_] if k_ < len(a_) else '<end>')[:90]}` vs `{(b_[k_] if k_ < len(b_) else '<end>')[:90]}`"
+        ctx.oblige("DET-W", f"witness {v.tag}", f"{len(set(orders))} distinct symbol orders -> {len(set(texts))} distinct text(s)", same, file="py/formak/cpp.py",
+                   func="<constructed generator>", construct="hash-order dependence " + diff_line[:60],
+                   msg=f"the generated code depends on the hash order of the model's symbol sets: {diff_line}")
+    ctx.floor("DET-W", ndet, 2, "witness valuations re-derived under different hash orders")
     return core.finish(ctx, explanation="order-taint over the E2 iteration inventory of the generator, sort-key totality, purity of generator modules", **META)
